@@ -41,6 +41,7 @@ def bounds(tier):
             "direction": {"n_o": [2, 3] if tier == "quick" else [2, 3, 4], "metric": ["euclidean", "cos"]},
             "composition": {"n_t": 3, "n_o": 2, "n_b": [1, 3], "frames": "1-2",
                             "frame bookkeeping of the rotation index": "n_b = 3, 2 frames (thorough: 3), centres of mass symbolic, per-frame orientation concrete"},
+            "nearest_rotation": {"grids": "2 (thorough 4) concrete rotation grids of 3-5 rotations with rational entries", "orientation": "arbitrary symbolic unit quaternion", "frames": 1},
             "tools_history": {"two AssignmentTool objects in one process": "n_t = 2, n_o = 1, n_b in {1, 2} (thorough: + n_o = 2, n_t = 3); radii of both grids symbolic"}}
 
 
